@@ -1,10 +1,10 @@
 package main
 
 import (
-	"os"
 	"go/constant"
 	"go/token"
 	"go/types"
+	"os"
 
 	"golang.org/x/tools/go/ssa"
 )
